@@ -23,6 +23,8 @@ def process_state(pristine=None, caller_dir=None):
     st = {}
     tmp = os.environ.get('TMPDIR', '/nonexistent')
     st['cwd'] = os.getcwd().replace(tmp, '<tmp>')
+    if caller_dir and os.path.realpath(os.getcwd()) == os.path.realpath(caller_dir):
+        st['cwd'] = '<caller>'          # the starting directory itself is an input of the history, not part of the state
     st['argv'] = [('<path>' if os.sep in str(a) else str(a)) for a in sys.argv]
     st['numpy_attrs'] = sorted(set(dir(numpy)) - (pristine or {}).get('_numpy_dir', set())) if pristine else []
     st['root_handlers'] = len(logging.getLogger().handlers)
